@@ -31,6 +31,9 @@ type Case struct {
 	Time  bool      `json:"time"` // minimise time instead of distance
 	From  vkit.P2   `json:"from"`
 	To    vkit.P2   `json:"to"`
+	// JitUnit: the relative size of one jitter step (0 = 1e-13). With 3e-10 the ends of the links at one node differ
+	// by up to 1.8e-9 relative, just inside the library's tolerance for "the same point" (|a-b|/|a+b| < 1e-9).
+	JitUnit float64 `json:"jit_unit,omitempty"`
 }
 
 func gen(t *rapid.T) Case {
@@ -55,6 +58,9 @@ func gen(t *rapid.T) Case {
 		c.Nodes[i] = vkit.MkP(sx*float64(p[0]), sy*float64(p[1]))
 	}
 	jitter := rapid.Bool().Draw(t, "jitter")
+	if jitter {
+		c.JitUnit = rapid.SampledFrom([]float64{0, 0, 1e-11, 3e-10}).Draw(t, "jitunit")
+	}
 	has := map[[2]int]bool{}
 	addLink := func(a, b int) {
 		if a == b {
@@ -105,14 +111,17 @@ func gen(t *rapid.T) Case {
 	return c
 }
 
-func jit(p vkit.P2, j [2]int) vkit.P2 {
-	return vkit.MkP(float64(p[0])*(1+float64(j[0])*1e-13), float64(p[1])*(1+float64(j[1])*1e-13))
+func jit(p vkit.P2, j [2]int, unit float64) vkit.P2 {
+	if unit == 0 {
+		unit = 1e-13
+	}
+	return vkit.MkP(float64(p[0])*(1+float64(j[0])*unit), float64(p[1])*(1+float64(j[1])*unit))
 }
 
 func lineOf(c Case, l Link) geom.LineString {
-	pts := []vkit.P2{jit(c.Nodes[l.A], l.JitA)}
+	pts := []vkit.P2{jit(c.Nodes[l.A], l.JitA, c.JitUnit)}
 	pts = append(pts, l.Mid...)
-	pts = append(pts, jit(c.Nodes[l.B], l.JitB))
+	pts = append(pts, jit(c.Nodes[l.B], l.JitB, c.JitUnit))
 	ls := make(geom.LineString, len(pts))
 	for i, p := range pts {
 		if l.Rev {
@@ -206,6 +215,11 @@ func run(c Case) (v vkit.Verdict) {
 		byEnds[lk{l.A, l.B}], byEnds[lk{l.B, l.A}] = i, i
 		inNet[l.A], inNet[l.B] = true, true
 	}
+	// a node sits at the first link end the library saw, up to 3 jitter steps from the nominal position per coordinate
+	posTol := 1e-9
+	for _, q := range c.Nodes {
+		posTol = math.Max(posTol, 4e-9*math.Max(math.Abs(float64(q[0])), math.Abs(float64(q[1]))))
+	}
 	nearest := func(p vkit.P2) ([]int, float64) {
 		best := math.Inf(1)
 		for i, q := range c.Nodes {
@@ -218,7 +232,7 @@ func run(c Case) (v vkit.Verdict) {
 			// ties: a node's position is only defined up to the tolerance with which link ends are identified
 			// (1e-9 relative; the generator moves link ends by up to a few 1e-13 relative), so any node within that
 			// of the minimum is an admissible end
-			if inNet[i] && math.Hypot(float64(q[0])-float64(p[0]), float64(q[1])-float64(p[1])) <= best+1e-9*math.Max(1, math.Max(math.Abs(float64(q[0])), math.Abs(float64(q[1])))) {
+			if inNet[i] && math.Hypot(float64(q[0])-float64(p[0]), float64(q[1])-float64(p[1])) <= best+posTol {
 				out = append(out, i)
 			}
 		}
@@ -231,7 +245,7 @@ func run(c Case) (v vkit.Verdict) {
 	if p := vkit.Catch(func() { rt, dist, tm, sd, ed = net.ShortestRoute(c.From.Pt(), c.To.Pt()) }); p != "" {
 		return v.Fail("ShortestRoute panicked: %s", p)
 	}
-	if vkit.Off(sd-ds, 1e-9) || vkit.Off(ed-de, 1e-9) {
+	if vkit.Off(sd-ds, posTol) || vkit.Off(ed-de, posTol) {
 		return v.Fail("startDistance/endDistance = %v/%v, distances to the nearest network nodes are %v/%v", sd, ed, ds, de)
 	}
 	// identify the returned pieces with input links
@@ -341,7 +355,7 @@ func TestProp(t *testing.T) {
 	vkit.Main(t, vkit.Spec[Case]{
 		ID: "C19",
 		Rule: "rapid: networks of 2-120 nodes on a lattice (spacing 2, |coordinates| >=10 in a drawn quadrant, so that the relative-tolerance node identification is unambiguous; in half of the networks the link end points differ from the node coordinates by a few 1e-13 relative, i.e. they are equal within the tolerance but not bit-identical), links from a drawn AddLink " +
-			"history: a random spanning tree over a drawn prefix of the nodes plus 0-2n random extra links, no self-loops or parallel links, each link a polyline with 0-4 jittered " +
+			"history: a random spanning tree over a drawn prefix of the nodes plus 0-2n random extra links, no self-loops or parallel links, each link a polyline whose ends differ from the node by up to 3 steps of 1e-13, 1e-11 or 3e-10 relative (the last just inside the 1e-9 identification tolerance) with 0-4 jittered " +
 			"intermediate vertices given in either direction, speeds in [0.1,100]; both Distance and Time; query points near nodes or anywhere. Oracle: Dijkstra on a reference graph; the " +
 			"returned pieces must be input links forming a walk from a nearest node of the start point to a nearest node of the end point, reported totals = sums over the chain, " +
 			"start/endDistance = distances to those nodes, chain cost = Dijkstra optimum (1e-9), empty iff same node or disconnected. Non-trivial = the optimal chain has more links " +
